@@ -33,4 +33,9 @@ theorem refused_by_repaired_code : ¬ Accepted env a ∧ ¬ Accepted env b := by
   simp [Accepted, rows, sortMethods, a, b]
   decide
 
+/-- a cache lookup that walks the class hierarchy is NOT definition-only: touching the parent (class 0) first makes the
+child (class 1) report the parent's schema -/
+theorem mro_lookup_depends_on_touch_order :
+    touchAll .mro [none, some 0] [] [0, 1] = [0, 0] ∧ touchAll .mro [none, some 0] [] [1, 0] = [1, 0] := by decide
+
 end VgiVerif.C39.Findings
